@@ -105,10 +105,10 @@ class Own:
         self.start = {'cls': cls, 'ctor_values': ctor_arg.tolist() if isinstance(ctor_arg, np.ndarray) else list(ctor_arg),
                       'ctor_kind': type(ctor_arg).__name__ + (':' + ctor_arg.dtype.name if isinstance(ctor_arg, np.ndarray) else ''),
                       'dt': dt}
+        self.snaps = [snap(ctor_arg)]     # as the caller created it, BEFORE the call
         self.s = O.make_sig(cls, ctor_arg, dt, np.array([0.5, 1.0, 2.0, 4.0]), np.array([0.2, 0.5, 1.0]))
         self.held = [ctor_arg]            # k-th entry: what the k-th call passed (None: nothing)
         self.how = ['constructor']
-        self.snaps = [snap(ctor_arg)]
         self.nchg = [0]
         self.ops, self.mnames = [], []
         self.passed_array, self.nontrivial, self.failed = True, False, None
@@ -150,7 +150,9 @@ class Own:
             self.failed = (name, r[1]); return False
         a = r[1]
         self.ops.append([name, args]); self.mnames.append(O.model_name(name, self.s) if isinstance(self.s.values, np.ndarray) else name)
-        self.held.append(a); self.how.append(name); self.snaps.append(snap(a) if a is not None else None); self.nchg.append(0)
+        pl = O.passed_list(name, args)     # the array's content as the caller created it, before the call
+        self.held.append(a); self.how.append(name)
+        self.snaps.append(snap(np.array(pl)) if a is not None and pl is not None else None); self.nchg.append(0)
         if name in O.VALUE_MUTATORS and self.passed_array:
             self.nontrivial = True
         self.after(name, None)
